@@ -71,12 +71,21 @@ Definition known_proc_site (s : proc_site) : bool :=
 Definition proc_bad (s : proc_site) : bool :=
   negb (ps_import_time s) && negb (ps_restored s) && negb (known_proc_site s).
 
+(* attribute writes on objects that a function of the hdf5 modules received as an argument (p.x = .., p.x += .., del p.x,
+   setattr(p, ..), p.x.append(..), p[k] = .., through local aliases too).  Such an object belongs to the caller and may be handed
+   to any number of handlers: it is a store shared by all of them, whatever the placement of the handler's own fields *)
+Record argw_site := {
+  aw_module : string; aw_class : string; aw_func : string; aw_param : string; aw_attr : string;
+  aw_handler : bool    (* a handle* / finalise* method of NetworkBuilder, DefaultNetworkHandler or a class derived from them *)
+}.
+
 Record state_table := {
   st_defaults : list default_site;
   st_fields : list field_site;
   st_globals : list global_site;
   st_classmeta : list meta_site;
-  st_process : list proc_site
+  st_process : list proc_site;
+  st_argwrites : list argw_site
 }.
 
 Definition is_nil {A} (l : list A) : bool := match l with [] => true | _ => false end.
@@ -98,9 +107,12 @@ Definition mutated_class_attrs (t : state_table) : list meta_site := filter meta
 
 Definition process_leaks (t : state_table) : list proc_site := filter proc_bad (st_process t).
 
+(* the handlers' writes on argument objects; rows outside the handler methods are listed in the evidence only *)
+Definition argument_writes (t : state_table) : list argw_site := filter aw_handler (st_argwrites t).
+
 Definition state_ok (t : state_table) : bool :=
   is_nil (mutated_defaults t) && all_own t && is_nil (globals_read t) && is_nil (mutated_class_attrs t)
-  && is_nil (process_leaks t).
+  && is_nil (process_leaks t) && is_nil (argument_writes t).
 
 (* ------------------------------------------------------------------------------------------- *)
 (* B2. histories of calls with footprints                                                        *)
